@@ -173,8 +173,7 @@ Theorem commit_accept_iff : forall st id c,
   (snd (commit st id false) = CStale <-> ~ (cur st = c_base c /\ seqn st = c_seqn c)).
 Proof.
   intros st id c Hf Hp. unfold commit. rewrite Hf, Hp.
-  assert (Hpo : (if c_overlay c then true else true) = true) by (destruct (c_overlay c); reflexivity).
-  rewrite Hpo. cbn [negb]. unfold stale_count. rewrite Hp.
+  cbn [negb]. unfold stale_count. rewrite Hp.
   assert (Hiff : negb (kv_eqb (cur st) (c_base c)) || negb (N.eqb (seqn st) (c_seqn c)) = false <->
                  cur st = c_base c /\ seqn st = c_seqn c).
   { rewrite orb_false_iff, !negb_false_iff, kv_eqb_true_iff, N.eqb_eq. reflexivity. }
@@ -351,8 +350,7 @@ Proof.
   destruct (run_ops_keeps ops s0 id c Hf Hnr) as (c' & F & P & S & _ & M).
   specialize (M Hmv). fold st1 in F, M.
   unfold commit. rewrite F. rewrite P, Hp.
-  assert (Hpo : (if c_overlay c' then true else true) = true) by (destruct (c_overlay c'); reflexivity).
-  rewrite Hpo. cbn [negb].
+  cbn [negb].
   assert (Hst : stale_count st1 c' = true).
   { unfold stale_count. rewrite P, Hp. apply negb_true_iff. apply N.eqb_neq. lia. }
   rewrite Hst, orb_true_r. reflexivity.
